@@ -111,7 +111,19 @@ pub const POLICIES: [Policy; 4] = [
     Policy { left_to_right: false, operator_first: false },
 ];
 
+/// Switches that turn the reference into a DEFECT MODEL (used only to recognise known findings)
+#[derive(Clone, Copy, Default, Debug, PartialEq, Eq)]
+pub struct Quirks {
+    /// derived forms expand non-hygienically: `or` binds its temporary as `x`, `cond` as `temp`,
+    /// `case` as `atom-key`, and the free identifiers `not`, `memv`, `null?` of the templates
+    /// resolve at the use site
+    pub unhygienic: bool,
+    /// a top-level `begin` is a procedure body: its definitions are local to it
+    pub begin_local: bool,
+}
+
 pub struct Machine {
+    pub quirks: Quirks,
     pub trace: Vec<i64>,
     pub policy: Policy,
     pub out: String,
@@ -362,7 +374,7 @@ impl Machine {
         // user programs run in a child of the library frame so that re-defining a library name
         // (e.g. `list`) does not change what other library procedures do
         let user = new_env(Some(global));
-        Machine { trace: vec![], policy, out: String::new(), fuel: 2_000_000, next_id: 1, global: user, depth: 0 }
+        Machine { quirks: Quirks::default(), trace: vec![], policy, out: String::new(), fuel: 2_000_000, next_id: 1, global: user, depth: 0 }
     }
 
     pub fn new_vector(&mut self, items: Vec<RVal>, mutable: bool) -> RVal {
@@ -408,6 +420,12 @@ impl Machine {
             let (name, val) = self.eval_define(x, g)?;
             g.define(&name, val);
             return Ok(RVal::Unspec);
+        }
+        if x.is_call_to("begin") && x.as_list().unwrap().len() > 1 && self.quirks.begin_local {
+            let f = new_env(Some(g.clone()));
+            let body = &x.as_list().unwrap()[1..];
+            let last = self.enter_body(body, &f)?.clone();
+            return self.eval(&last, &f);
         }
         if x.is_call_to("begin") && x.as_list().unwrap().len() > 1 {
             // top-level begin: its forms are spliced into the top level
@@ -515,6 +533,12 @@ impl Machine {
                         return Err(ErrKind::Syntax("EmptyCall".into()));
                     }
                     let head = v[0].as_sym().unwrap_or("");
+                    if self.quirks.unhygienic {
+                        if let Some(e) = unhygienic_expansion(head, v) {
+                            cur = e;
+                            continue;
+                        }
+                    }
                     match head {
                         "quote" => return Ok(self.datum(&v[1])),
                         "if" => {
@@ -1074,6 +1098,78 @@ impl Machine {
             }
             _ => unreachable!("prim {}", name),
         })
+    }
+}
+
+/// The bundled macros of the pinned tree insert these identifiers literally (defect model).
+fn unhygienic_expansion(head: &str, v: &[Sx]) -> Option<Sx> {
+    use crate::sexp::{list, sym};
+    let l = |items: Vec<Sx>| list(items);
+    match head {
+        "or" if v.len() > 2 => {
+            // (let ((x test1)) (if x x (or test2 ...)))
+            let mut rest = vec![sym("or")];
+            rest.extend(v[2..].iter().cloned());
+            Some(l(vec![sym("let"), l(vec![l(vec![sym("x"), v[1].clone()])]), l(vec![sym("if"), sym("x"), sym("x"), l(rest)])]))
+        }
+        "unless" if v.len() > 2 => {
+            let mut b = vec![sym("begin")];
+            b.extend(v[2..].iter().cloned());
+            Some(l(vec![sym("if"), l(vec![sym("not"), v[1].clone()]), l(b)]))
+        }
+        "cond" if v.len() > 1 => {
+            let cl = v[1].as_list()?;
+            let more = v.len() > 2;
+            let mut rest = vec![sym("cond")];
+            rest.extend(v[2..].iter().cloned());
+            if cl.first()?.as_sym() == Some("else") {
+                return None;
+            }
+            if cl.len() == 3 && cl[1].as_sym() == Some("=>") {
+                let call = l(vec![cl[2].clone(), sym("temp")]);
+                let iff = if more { l(vec![sym("if"), sym("temp"), call, l(rest)]) } else { l(vec![sym("if"), sym("temp"), call]) };
+                return Some(l(vec![sym("let"), l(vec![l(vec![sym("temp"), cl[0].clone()])]), iff]));
+            }
+            if cl.len() == 1 && more {
+                return Some(l(vec![sym("let"), l(vec![l(vec![sym("temp"), cl[0].clone()])]), l(vec![sym("if"), sym("temp"), sym("temp"), l(rest)])]));
+            }
+            if cl.len() > 1 && more {
+                let mut b = vec![sym("begin")];
+                b.extend(cl[1..].iter().cloned());
+                return Some(l(vec![sym("if"), cl[0].clone(), l(b), l(rest)]));
+            }
+            None
+        }
+        "case" if v.len() > 2 => {
+            if !matches!(v[1], Sx::Sym(_) | Sx::Int(_) | Sx::Bool(_) | Sx::Char(_) | Sx::Str(_) | Sx::Real(_) | Sx::Rat(..)) {
+                // (let ((atom-key (key ...))) (case atom-key clauses ...))
+                let mut c = vec![sym("case"), sym("atom-key")];
+                c.extend(v[2..].iter().cloned());
+                return Some(l(vec![sym("let"), l(vec![l(vec![sym("atom-key"), v[1].clone()])]), l(c)]));
+            }
+            let cl = v[2].as_list()?;
+            if cl.first()?.as_sym() == Some("else") {
+                return None;
+            }
+            let more = v.len() > 3;
+            let mut rest = vec![sym("case"), v[1].clone()];
+            rest.extend(v[3..].iter().cloned());
+            let memv = l(vec![sym("memv"), v[1].clone(), crate::sexp::quote(cl[0].clone())]);
+            let arrow = cl.len() == 3 && cl[1].as_sym() == Some("=>");
+            let then = if arrow {
+                l(vec![cl[2].clone(), v[1].clone()])
+            } else {
+                let mut b = vec![sym("begin")];
+                b.extend(cl[1..].iter().cloned());
+                l(b)
+            };
+            if more {
+                Some(l(vec![sym("if"), memv, then, l(rest)]))
+            } else {
+                Some(l(vec![sym("if"), memv, then]))
+            }
+        }
+        _ => None,
     }
 }
 
